@@ -45,6 +45,10 @@ Definition p_opt {A} (p : parser A) : parser (option A) :=
   fun s => match p s with POk s' a => POk s' (Some a) | PErr _ => POk s None | PFuel => PFuel end.
 Definition p_pair {A B} (p : parser A) (q : parser B) : parser (A * B) :=
   fun s => bind (p s) (fun s1 a => bind (q s1) (fun s2 b => POk s2 (a, b))).
+(* a parser that, when it fails, fails at ITS OWN input: the error carries the state the parser was
+   started in (Statement::parse_error restores its input in the error) *)
+Definition p_restore {A} (p : parser A) : parser A :=
+  fun s => match p s with PErr _ => PErr s | r => r end.
 Definition p_preceded {A B} (p : parser A) (q : parser B) : parser B := p_map snd (p_pair p q).
 Definition p_terminated {A B} (p : parser A) (q : parser B) : parser A := p_map fst (p_pair p q).
 (* many0: stops at the first error and returns its own pre-attempt input; a success that
@@ -424,11 +428,13 @@ Fixpoint p_stmt (fuel : nat) : parser stmt :=
                                (p_expect (p_tag (is_k RCurly)) (MissingClosing 125%N))))))
       (p_alt (p_call f)
       (p_alt (p_assign f)
-         (* parse_error *)
+         (* parse_error: when `info(tuple((many0(comment), ignore_until1(..))))` fails, the error is
+            re-issued with the ORIGINAL input, so no comment is consumed by the failing alternative *)
+         (p_restore
          (p_map (fun r => let '((_, ignored), inf) := r in
                           SError (info_append inf {| e_s := i_s inf; e_e := i_e inf;
                                                      e_m := EParse (UnexpectedCharacters (show_tokens ignored)) |}))
-            (p_info (p_pair p_comments (p_ignore1 la_stmt))))))))) s0
+            (p_info (p_pair p_comments (p_ignore1 la_stmt)))))))))) s0
   end.
 
 Definition p_procdecl (fuel : nat) : parser procdecl :=
